@@ -81,8 +81,7 @@ func init() {
 			"a typed subset executed in the probe (getter, InContext twin, Must twins incl. panics on todo services). non-trivial = accepted configuration whose method set was compared; distinct = distinct configuration",
 		Assumptions: []string{"the exported method set of *container.Container is read with go/types from the pinned runtime's export data", "unexported underscore helper methods of the non-stub output are not part of the API and are ignored"},
 		BudgetQuick: 240 * time.Second, BudgetThorough: 900 * time.Second,
-		Prepare:     PrepareUniverse,
-		CaseTimeout: 900 * time.Second,
+		Prepare: PrepareUniverse,
 		Run: func(w *W) {
 			var base map[string]string
 			var fields []string
